@@ -248,6 +248,16 @@ def replay(path, prop):
     """re-run the stored case on the real code and re-evaluate the monitors"""
     d = json.load(open(path))
     r = d['replay']
+    if r.get('kind') == 'loop-stop':
+        from jugverif import loopcheck
+        real = loopcheck.run_real(r['deps'], r['flags'], r['nr'], list(r['answers']), None, stop_at=tuple(r['stop_at']))
+        print('task list (dependency lists):', r['deps'], 'flags:', r['flags'], 'answers:', r['answers'][:80], 'stop request during store/lock call', r['stop_at'])
+        print('events of the real execution_loop:', json.dumps(real[:200]))
+        st = [i for i, e in enumerate(real) if e[0] == 'stop']
+        later = [e for e in real[st[0] + 1:] if e[0] in ('begin', 'dump', 'lock', 'endOk', 'preExec')] if st else []
+        bad = bool(later) or not (real and real[-1][0] == 'raise')
+        print('property FAILS on this input (the worker goes on after the stop request)' if bad else 'property holds on this input')
+        return 1 if bad else 0
     if r.get('kind') == 'loop':
         from jugverif import loopcheck
         run = core.Run(prop, 'quick')
